@@ -8,7 +8,7 @@ import tempfile
 import numpy as np
 
 SEED_FORMS = ["cpu_kw", "gpu_true", "positional", "defaults"]
-READ_ONLY = {"sample", "sample_cont", "statistics", "apply", "metrics", "rotate", "gradient", "save", "psi", "refused"}
+READ_ONLY = {"sample", "sample_cont", "statistics", "apply", "metrics", "rotate", "gradient", "save", "psi", "refused", "batchgrad"}
 
 
 class GlobalConfigLeak(RuntimeError):
@@ -29,7 +29,7 @@ def make_spec(rng, hid, seed_value):
     nv = int(rng.integers(3, 5))
     ops = ["construct"]
     pool = ["reinit", "sample", "sample_cont", "statistics", "apply", "metrics", "rotate", "gradient", "save", "fit", "psi", "fit",
-            "setparams", "fit_cb", "refused"]
+            "setparams", "fit_cb", "refused", "batchgrad"]
     n = int(rng.integers(5, 10))
     for _ in range(n):
         ops.append(pool[int(rng.integers(0, len(pool)))])
@@ -154,6 +154,16 @@ def run_history(spec, perturb=None, hooks=None):
         elif op == "gradient":
             t = torch.tensor(rows, dtype=torch.double)
             g = st.gradient(t) if kind == "positive" else st.gradient(t, bases)
+            d = digest([x for x in g if hasattr(x, "shape")])
+        elif op == "batchgrad":
+            # the public per-batch gradient (positive phase minus k-step negative phase) called directly, as a custom training
+            # loop does: an evaluation - the caller's batches, which it goes on using, are left as they were
+            t = torch.tensor(rows, dtype=torch.double)
+            neg = t[: max(1, len(rows) // 2)].clone()
+            keep_t, keep_n = t.clone(), neg.clone()
+            g = st.compute_batch_gradients(2, t, neg) if kind == "positive" else st.compute_batch_gradients(2, t, neg, bases)
+            if not (torch.equal(t, keep_t) and torch.equal(neg, keep_n)):
+                raise RuntimeError("compute_batch_gradients modified the batches it was given (the caller's data / chain start rows)")
             d = digest([x for x in g if hasattr(x, "shape")])
         elif op == "save":
             fd, path = tempfile.mkstemp(suffix=".pt", dir="/var/tmp")
